@@ -14,6 +14,19 @@ CLAIMED = {
    text="For every key length 0..64 (quick) / 0..257 (thorough) z3 decides impl(bytes, seed) == published algorithm with all key bytes and the seed symbolic; "
         "bounded in key length only. The reference is pinned to the SMHasher verification constants. Right level: the tests sample 20 ASCII keys, the solver covers all 256^L x 2^64 inputs per length.",
    note="Trusted: Numba front end/type inference and that lowering preserves typed-IR semantics; little-endian host; z3. Lengths beyond the bound and runtime alignment are outside the claim."),
+
+ "C01": dict(engine=K, category="model_checking", design="6 C01",
+   technique="symbolic execution of Numba typed IR + z3 (QF_BV): inductive invariant with ghost true counts over one add/merge step, plus bounded unrolling of operation skeletons from empty sketches",
+   text="The invariant LB/UB (= the property itself, stated over ghost true counts and per-cell totals) is proved inductive over the real _add_linear/_merge_linear kernels from an arbitrary table, which covers histories of any length and any merge tree at the listed shapes; _query_linear is proved to return the minimum of the key's counters. A bounded search over all operation skeletons (K=3 quick, 4-5 thorough; 2 sketches, 3 keys, symbolic columns and boundary multiplicities) finds real histories, replayed through the public API.",
+   note="Bounded in table shape (<= 3x3 quick, 4x4 + 2x8 thorough) and BMC depth; hash stubbed as uninterpreted columns (exact: the kernels use it only modulo width); wrapper glue (update/ngram/save/load) is decided under C12/C10."),
+ "C02": dict(engine=K, category="model_checking", design="6 C02",
+   technique="symbolic execution of Numba typed IR + z3 (QF_ABV): kernel == specification from an arbitrary register state (z3 Array, symbolic precision), algebraic laws on the kernel terms",
+   text="_n_leading_zeros64 == clz for all 2^64 inputs; _add == the documented register update for symbolic p in 7..16, all hashes, seeds and register states; _merge == element-wise max (m=128 quick, to 512 thorough); adds commute/idempotent and merge/add commute on the kernels. Each lemma is an exact functional specification from an arbitrary state, so 'state = fold over distinct keys' follows by induction (prose). Counterexamples are replayed as real add/merge histories with crafted 8-byte keys (FastHash64 is invertible on one block).",
+   note="_merge beyond m=512 rests on loop uniformity; hash stubbed as an arbitrary 64-bit value per key; wrappers under C12/C15."),
+ "C05": dict(engine=K, category="model_checking", design="6 C05",
+   technique="symbolic execution of Numba typed IR + z3 (QF_BV; QF_FPBV with uninterpreted pow for _log_counter): one add step from an arbitrary table, callee-contract decomposition for the log kernels",
+   text="One step of the real add kernels from an arbitrary table with all cells, both keys' columns and the multiplicity symbolic: every clause of C05 for linear (all uint32 v) and for log16/log8 (all uint64 v, symbolic num_reserved) with _log_counter summarised by a contract that is itself proved against the real _log_counter (loop body with symbolic counter/num_reserved/base, plus configuration-concrete end-to-end unrollings). Counterexamples are replayed through the public API with the table and draws installed.",
+   note="Bounded in shape; the composition 'v iterations of the proved loop body satisfy the contract' is an induction in prose; states are arbitrary tables (a superset of the reachable ones) installed through the documented public arrays in replays."),
 }
 NA = {}
 ALL = sorted(TITLES)
